@@ -1,4 +1,6 @@
 """C41 (recursion clause): MacroNode.macro_calling_macro on parsed methods vs the Coq model of the search."""
+import json
+
 from harness.common import Prop, lst
 
 
@@ -133,7 +135,7 @@ def run_method(lines, ticks=400):
 class C41(Prop):
     ID = "C41"
     DESIGN_REF = "DESIGN.md §7 C41"
-    COQ_IMPORTS = ""
+    COQ_IMPORTS = "From OP Require Import model.Interp model.InterpRun."
     SHARD = 300
     QUICK_N = 1500
     THOROUGH_N = 60000
@@ -142,27 +144,43 @@ class C41(Prop):
                   "flagged IF AND ONLY IF some chain of calls starting in the macro's body leads back to the macro (soundness: "
                   "every reported chain is genuine and ends with the macro; completeness: no chain is missed, by a closure "
                   "argument over the visited set; termination within recursion depth = number of macros, proved by a "
-                  "measure, so no fuel hypothesis remains). Not covered: 'runs the most recently defined body once per call "
-                  "in order' and 'a started macro may not be edited' (interpreter / merge).")
+                  "measure, so no fuel hypothesis remains). For the interpreter model (coq/model/Interp.v): a definition replaces "
+                  "the registry entry of its name and no other, a call of an undefined name and a call the search refuses "
+                  "fail. 'The body a call runs is the most recently defined one' and 'an undefined call fails' are decided "
+                  "on the real PInterpreter by a Coq monitor over the observed node states; 'once per call, lines in order' "
+                  "rests on the interpreter correspondence; 'a started macro may not be edited' belongs to C01.")
     LEVEL_NOTE = ("Theorems are about coq/model/C41.v. Tie: generated methods are parsed by the real parser; the macro table "
                   "(per macro the calls of its body in source order, nested blocks/watches/alarms included, nested "
                   "definitions excluded) is extracted from the AST independently of the function under test, and "
                   "macro_calling_macro(macros) of every defined macro is compared with the model's search (same chain). A "
                   "second stream runs methods of macro calls on the real Engine and compares 'fails / reaches the end' with "
                   "the model (a run never stalls; it fails exactly when an executed call is undefined or would recurse). "
+                  "A third stream runs methods with macro definitions, redefinitions between calls, calls in blocks and "
+                  "watches and undefined calls tick by tick on the real PInterpreter and on the interpreter model (all node "
+                  "state fields, is_registered and run_started_count included) and feeds the observed states to the "
+                  "monitor, which rebuilds the registry from the order in which definition lines are visited. "
                   "The Coq monitor decides reachability with an independent naive bounded search. The /repo fix is mirrored "
                   "by the model (the pre-fix search followed only the first resolvable direct child). No axioms.")
-    TECHNIQUE = "Coq proof (soundness, completeness and termination of the recursion search for all macro tables) + function-level correspondence on parsed methods + run-level correspondence on the real Engine + independent Coq monitor"
-    RULE = ("85%: methods of 1-5 macros with redefinitions, nested definitions, bodies of 0-4 items (calls of defined and "
-            "undefined macros, marks, blocks / watches / alarms containing calls), every defined macro queried; 15%: flat "
+    TECHNIQUE = "Coq proof (soundness, completeness and termination of the recursion search for all macro tables; registry and failing-call lemmas of the interpreter model) + function-level correspondence on parsed methods + run-level correspondence on the real Engine + tick-by-tick correspondence of the interpreter model on methods with redefinitions + independent Coq monitors"
+    RULE = ("80%: methods of 1-5 macros with redefinitions, nested definitions, bodies of 0-4 items (calls of defined and "
+            "undefined macros, marks, blocks / watches / alarms containing calls), every defined macro queried; 8%: the "
+            "interpreter harness's macro shape (1-3 macros, redefinitions before and between calls, calls at top level, in "
+            "blocks and watch bodies, undefined names) under scripted 10-70 tick environments; 12%: flat "
             "macro definitions followed by 1-3 top-level calls and a final Mark, run for up to 400 ticks on the real engine; "
-            "non-trivial = a table with a recursive and a non-recursive macro, or any run; distinct by canonical JSON")
+            "non-trivial = a table with a recursive and a non-recursive macro, an interpreter run in which a macro body ran, or any engine run; distinct by canonical JSON")
+
+    def __init__(self):
+        self._obs = {}
 
     def gen_cases(self, rng, n, tier):
         out = []
         for _ in range(n):
-            if rng.random() < 0.85:
+            r = rng.random()
+            if r < 0.8:
                 out.append(dict(kind="fun", lines=gen_method(rng)))
+            elif r < 0.88:
+                from harness.interp_common import gen_interp_case
+                out.append(dict(kind="interp", **gen_interp_case(rng, shape="macros")))
             else:
                 lines, calls = gen_run_method(rng)
                 out.append(dict(kind="run", lines=lines, calls=calls))
@@ -176,6 +194,12 @@ class C41(Prop):
         return macros, table, ids
 
     def run_impl(self, case):
+        if case["kind"] == "interp":
+            from harness import interp_driver
+            o = interp_driver.run_case(dict(lines=case["lines"], ticks=case["ticks"]))
+            o["kind"] = "interp"
+            self._obs[json.dumps(case, sort_keys=True)] = o
+            return o
         macros, table, ids = self._table(case)
         tab = [[ids[n], [ids[c] for c in b]] for n, b in table.items()]
         if case["kind"] == "run":
@@ -191,6 +215,11 @@ class C41(Prop):
         return dict(kind="fun", table=tab, query=[ids[n] for n in macros], result=[res[n] for n in macros])
 
     def case_to_coq(self, case):
+        if case["kind"] == "interp":
+            from harness.interp_common import program_coq, ticks_coq
+            key = json.dumps(case, sort_keys=True)
+            o = self._obs.get(key) or self.run_impl(case)
+            return f"IInterp ({program_coq(o['table'])}, {ticks_coq(case['ticks'])})"
         obs = self.run_impl(case) if case["kind"] == "fun" else None
         if case["kind"] == "run":
             macros, table, ids = self._table(case)
@@ -200,17 +229,25 @@ class C41(Prop):
         return f"IFun {t} {lst([nat(q) for q in obs['query']])}"
 
     def obs_to_coq(self, obs):
+        if obs["kind"] == "interp":
+            from harness.interp_common import view_coq
+            return "OInterp " + lst([view_coq(v) for v in obs["views"]])
         if obs["kind"] == "run":
             from harness.common import b
             return f"ORun {b(obs['error'] or obs['crashed'])} {b(obs['ended'])}"
         return "OFun " + lst([lst([nat(x) for x in (r if r != "RecursionError" else [999999])]) for r in obs["result"]])
 
     def nontrivial(self, case, obs):
+        if obs["kind"] == "interp":     # some macro body ran
+            return any(r["kind"][0] == "KMacro" and obs["views"][-1]["nodes"][k][9] > 0 for k, r in enumerate(obs["table"]))
         if obs["kind"] == "run":
             return True
         return any(r for r in obs["result"]) and any(not r for r in obs["result"]) and len(obs["table"]) >= 2
 
     def kind(self, case, obs):
+        if obs["kind"] == "interp":
+            names = [r["kind"][1] for r in obs["table"] if r["kind"][0] == "KMacro"]
+            return f"interp,redefined={int(len(names) != len(set(names)))},raised={int(any(v['raised'] or v['last_error'] is not None for v in obs['views']))}"
         if obs["kind"] == "run":
             return f"run,error={int(obs['error'])},ended={int(obs['ended'])}"
         return f"fun,macros={len(obs['table'])},recursive={sum(1 for r in obs['result'] if r)}"
